@@ -39,11 +39,11 @@ def well_conditioned(rng, m, n):
     return J
 
 
-def one(ctx: Ctx, spec, dtype):
+def one(ctx: Ctx, spec, dtype, dependent=False):
     rng = ctx.rng
     m = max(spec.min_rows, rng.choice([2, 3, 4]))
     n = rng.choice([m, m + 1, m + 2]) if (spec.pinv or spec.solver or spec.ties) else rng.choice([2, 3, 5])
-    if spec.pinv and not spec.solver and rng.random() < 0.5:
+    if spec.pinv and not spec.solver and dependent:
         # rank-deficient with an unambiguous rank: one row is a combination of two others (not a duplicate) — what a
         # pseudo-inverse handles and a plain solve / Cholesky factorisation does not
         m = max(m, 3)
@@ -72,6 +72,32 @@ def one(ctx: Ctx, spec, dtype):
     if st != "ok":
         ctx.violation(f"{spec.name} raised {x}", rp)
         return
+    # (0) rank-deficient matrices: the implementation against the exact any-rank model of the pseudo-inverse based
+    #     aggregators (`imtlgWeightsP` / `configVecP`, TjdProps/C17b.lean); row norms are square roots: the model gets
+    #     their double-precision values as exact rationals (the answer is Lipschitz in them)
+    if dependent and spec.name in ("IMTLG", "ConFIG") and dtype == torch.float64:
+        from agg_common import ask_agg, fr_list, tensor_to_fr, maxdiff, maxabs
+        dn = [Fr(float(v)) for v in Jt.double().norm(dim=1).tolist()]
+        if spec.name == "IMTLG":
+            rep = ask_agg(ctx.driver, "imtlgp", J, d=dn, guard=Fr(1, 10 ** 12))
+            xm = None if rep is None else fr_list(rep[2])
+        else:
+            wv = [Fr(v) for v in pv] if pv is not None else [Fr(1)] * m
+            rep = ask_agg(ctx.driver, "configp", J, d=dn, w=wv)
+            xm = None if rep is None else fr_list(rep[1])
+        if xm is None:
+            ctx.violation(f"{spec.name}: the any-rank model found no certificate on a rank-deficient matrix", rp, no_input=True)
+            return
+        sv = np.linalg.svd(np.array([[float(v) for v in r] for r in J]), compute_uv=False)
+        pos = [v for v in sv if v > 1e-9 * sv[0]]
+        kappa = (pos[0] / pos[-1]) ** 2
+        xs = tensor_to_fr(x)
+        tolm = Fr(64 * 2.2e-16 * kappa * m * n) * max(maxabs(xm), maxabs(xs), Fr(1, 10 ** 30))
+        ctx.count("compared_with_any_rank_model", spec.name)
+        if maxdiff(xs, xm) > tolm:
+            ctx.violation(f"{spec.name} on a rank-{len(pos)} matrix with {m} rows returns {[float(v) for v in xs]}; the exact "
+                          f"pseudo-inverse based definition gives {[float(v) for v in xm]} (tolerance {float(tolm):.2e})", rp)
+            return
     # (1) row span
     if spec.weighted:
         torch.manual_seed(seed)
@@ -227,6 +253,8 @@ def main(ctx: Ctx):
             if spec.solver and i % 3:
                 continue
             one(ctx, spec, torch.float64 if i % 3 else torch.float32)
+            if spec.pinv and not spec.solver:
+                one(ctx, spec, torch.float64 if i % 2 else torch.float32, dependent=True)
             if i % 6 == 0 and spec.name != "GradDrop":
                 many_zero_columns(ctx, spec)
             if i % 2 == 0:
